@@ -25,7 +25,10 @@ CONSTANTS RotShapes,  \* set of <<H,W>>: arrays on which every region and corner
           Sub1Max,    \* 1D parents are drawn from 0 .. Sub1Max
           PxMax,      \* pixel ranges (a, b) are drawn from 0 .. PxMax
           CtorLo,     \* constructor arguments are drawn from CtorLo .. CtorHi
-          CtorHi
+          CtorHi,
+          HistShapes, \* set of <<H,W>>: frames on which layout histories are explored
+          HistDepth,  \* number of Rotate / Extract steps after the layout has been built
+          HistAllSlots \* TRUE: the explored region is placed in each of the three layout slots in turn
 
 Absent   == << >>    \* "no region" (None in the code)
 Rejected == << >>    \* "the constructor raised"
@@ -145,20 +148,61 @@ SubCode1(mode, p, px) ==
                [] mode = "front_end" -> << p[1] + ((p[2] - p[1]) - px[1]), p[1] + (p[2] - p[1]) >>
     IN IF q[1] < 0 \/ q[2] < 0 \/ q[1] >= q[2] THEN Rejected ELSE q
 
+\* ---- layout histories ---------------------------------------------------------------------------
+\* A Layout2D carries three region slots (parallel_overscan, serial_prescan, serial_overscan; Absent = None) that
+\* describe an array.  A layout state is the frame shape sh of the array it describes, the read-out corner c of
+\* the last rotation, the slots regs and -- tracked by the specification only -- the array arr (source tags) the
+\* layout belongs to.  A step is [op, c, e]:
+\*   "build"     Layout2D(shape_2d, regions)                          (first step only)
+\*   "buildrot"  Layout2D.rotated_from_roe_corner(c, shape, regions)  (first step only): build, then rotate for c
+\*   "rot"       new_rotated_from(c): APPLY the flips of corner c to every slot, and to the array
+\*   "ext"       layout_extracted_from(e): every slot becomes its overlap with window e in window coordinates; the
+\*               array becomes the window, whose shape is the frame any later rotation reflects about.
+\* stale = TRUE gives the second formulation shaped like layout.py, where an extraction keeps the old shape_2d.
+RotReg(c, sh, r) == IF r = Absent THEN Absent ELSE RotRegion(c, sh, r)
+ExtReg(r, e) == IF r = Absent THEN Absent ELSE AfterExtraction(r, e)
+StepLayout(L, s, stale) ==
+    CASE s.op = "rot" ->
+           [sh |-> L.sh, c |-> s.c, regs |-> [k \in 1 .. 3 |-> RotReg(s.c, L.sh, L.regs[k])], arr |-> RotArray(s.c, L.arr)]
+      [] s.op = "ext" ->
+           [sh |-> IF stale THEN L.sh ELSE << s.e[2] - s.e[1], s.e[4] - s.e[3] >>, c |-> L.c,
+            regs |-> [k \in 1 .. 3 |-> ExtReg(L.regs[k], s.e)], arr |-> Slice(L.arr, s.e)]
+      [] OTHER -> L
+FirstLayout(sh, regs, s) ==
+    LET L0 == [sh |-> sh, c |-> <<1, 0>>, regs |-> [k \in 1 .. 3 |-> regs[k]], arr |-> Ident(sh[1], sh[2])]
+    IN IF s.op = "buildrot" THEN StepLayout(L0, [op |-> "rot", c |-> s.c, e |-> s.e], FALSE) ELSE L0
+RECURSIVE RunFrom(_, _, _, _)
+RunFrom(L, steps, k, stale) == IF k > Len(steps) THEN L ELSE RunFrom(StepLayout(L, steps[k], stale), steps, k + 1, stale)
+RunHist(sh, regs, steps, stale) == RunFrom(FirstLayout(sh, regs, steps[1]), steps, 2, stale)
+IsRotStep(s) == s.op \in {"rot", "buildrot"}
+\* the single corner whose flips equal the flips of c followed by the flips of d
+ComposeCorners(c, d) == << IF FlipsRows(c) # FlipsRows(d) THEN 0 ELSE 1, IF FlipsCols(c) # FlipsCols(d) THEN 1 ELSE 0 >>
+\* windows explored by the bounded machine: trim one row or one column off one side of an H x W frame
+HistWindows(H, W) == { e \in { <<1, H, 0, W>>, <<0, H - 1, 0, W>>, <<0, H, 1, W>>, <<0, H, 0, W - 1>> } : Valid2(e) }
+
 -----------------------------------------------------------------------------
 (* Layer 2: the bounded machine.  Init picks one call and its input; one    *)
 (* named action per public call computes what that call must return.        *)
 
-VARIABLES kind, inp, phase, obs
-vars == << kind, inp, phase, obs >>
+VARIABLES kind, inp, phase, obs,
+          hist,   \* layout histories: the steps taken so far
+          lay     \* layout histories: the layout state after every step
+vars == << kind, inp, phase, obs, hist, lay >>
 
 Blank == [sh |-> <<0, 0>>, c |-> <<1, 0>>, r |-> << >>, e |-> << >>, px |-> << >>, m |-> ""]
 PxPairs == (0 .. PxMax) \X (0 .. PxMax)    \* includes empty and reversed ranges (a >= b)
 CtorVals == CtorLo .. CtorHi
 
+\* slot pattern of a history: the explored region in slot k, the last row of the frame in the next, none in the third
+SlotsOf(sh, r) == IF HistAllSlots THEN 0 .. 2 ELSE { (r[1] + r[2] + r[3] + r[4]) % 3 }
+Triple(sh, r, k) == [j \in 1 .. 3 |-> IF j - 1 = k THEN r
+                                       ELSE IF j - 1 = (k + 1) % 3 THEN << sh[1] - 1, sh[1], 0, sh[2] >> ELSE Absent]
+
 Init ==
     /\ phase = "input"
     /\ obs = << >>
+    /\ hist = << >>
+    /\ lay = << >>
     /\ \/ /\ kind = "rot"
           /\ \E sh \in RotShapes, c \in Corners : \E r \in Regions2(sh[1], sh[2]) :
                 inp = [Blank EXCEPT !.sh = sh, !.c = c, !.r = r]
@@ -181,12 +225,15 @@ Init ==
           /\ \E p \in CtorVals \X CtorVals : inp = [Blank EXCEPT !.r = p]
        \/ /\ kind = "ctor2"
           /\ \E r \in CtorVals \X CtorVals \X CtorVals \X CtorVals : inp = [Blank EXCEPT !.r = r]
+       \/ /\ kind = "hist"
+          /\ \E sh \in HistShapes : \E r \in Regions2(sh[1], sh[2]) : \E k \in SlotsOf(sh, r) :
+                inp = [Blank EXCEPT !.sh = sh, !.r = Triple(sh, r, k)]
 
 Dump == PrintT(ToJson([k |-> "inst", kind |-> kind, sh |-> inp.sh, c |-> inp.c, r |-> inp.r,
                        e |-> inp.e, px |-> inp.px, m |-> inp.m]))
 
 Ready(k) == kind = k /\ phase = "input"
-Done == phase' = "observed" /\ Dump /\ UNCHANGED << kind, inp >>
+Done == phase' = "observed" /\ Dump /\ UNCHANGED << kind, inp, hist, lay >>
 
 \* rotate_array_via_roe_corner_from / rotate_region_via_roe_corner_from / Region2D.slice
 Rotate == /\ Ready("rot")
@@ -207,7 +254,35 @@ SubRegion2 == Ready("sub2") /\ obs' = [out |-> Sub2(inp.m, inp.r, inp.px)] /\ Do
 Construct1 == Ready("ctor1") /\ obs' = [rejected |-> Invalid1(inp.r)] /\ Done
 Construct2 == Ready("ctor2") /\ obs' = [rejected |-> Invalid2(inp.r)] /\ Done
 
-Next == Rotate \/ Extract1 \/ Extract2 \/ SubRegion1 \/ SubRegion2 \/ Construct1 \/ Construct2
+\* ---- layout histories: Build / BuildRotated(c), then up to HistDepth steps Rotate(c) / Extract(e) ----
+HistDump == PrintT(ToJson([k |-> "inst", kind |-> "hist", sh |-> inp.sh, regs |-> inp.r, steps |-> hist']))
+HistKeep == UNCHANGED << kind, inp, phase, obs >>
+Begin(s) == /\ kind = "hist"
+            /\ hist = << >>
+            /\ hist' = << s >>
+            /\ lay' = << FirstLayout(inp.sh, inp.r, s) >>
+            /\ HistDump
+            /\ HistKeep
+Advance(s) == /\ hist' = Append(hist, s)
+              /\ lay' = Append(lay, StepLayout(lay[Len(lay)], s, FALSE))
+              /\ HistDump
+              /\ HistKeep
+Live == kind = "hist" /\ Len(hist) >= 1 /\ Len(hist) <= HistDepth
+\* Layout2D(shape_2d=..., parallel_overscan=..., serial_prescan=..., serial_overscan=...)
+BuildLayout == kind = "hist" /\ Begin([op |-> "build", c |-> <<1, 0>>, e |-> << >>])
+\* Layout2D.rotated_from_roe_corner(roe_corner=c, shape_native=..., regions)
+BuildRotatedLayout(c) == kind = "hist" /\ Begin([op |-> "buildrot", c |-> c, e |-> << >>])
+\* layout.new_rotated_from(roe_corner=c)
+RotateLayout(c) == Live /\ Advance([op |-> "rot", c |-> c, e |-> << >>])
+\* layout.layout_extracted_from(extraction_region=e), e one of the explored windows of the current frame
+CurWindows == IF kind = "hist" /\ Len(lay) >= 1 THEN HistWindows(lay[Len(lay)].sh[1], lay[Len(lay)].sh[2]) ELSE {}
+ExtractLayout == Live /\ \E e \in CurWindows : Advance([op |-> "ext", c |-> <<1, 0>>, e |-> e])
+
+Next == \/ Rotate \/ Extract1 \/ Extract2 \/ SubRegion1 \/ SubRegion2 \/ Construct1 \/ Construct2
+        \/ BuildLayout
+        \/ \E c \in Corners : BuildRotatedLayout(c)
+        \/ \E c \in Corners : RotateLayout(c)
+        \/ ExtractLayout
 Spec == Init /\ [][Next]_vars
 
 -----------------------------------------------------------------------------
@@ -287,4 +362,37 @@ CtorMeaning ==
     /\ Seen("ctor1") => (obs.rejected <=> ~ Valid1(inp.r))
     /\ Seen("ctor2") => (obs.rejected <=> ~ Valid2(inp.r))
     /\ Seen("ctor2") /\ ~ obs.rejected => CellsOf(inp.r) # {}
+
+\* ---- layout histories ----
+InHist == kind = "hist" /\ Len(hist) >= 1
+TagsOf(A) == { A[i][j] : i \in 1 .. Rows(A), j \in 1 .. Cols(A) }
+\* after any history every slot addresses, in the array the layout belongs to, exactly those cells of its original
+\* region that are still in the array (in whatever orientation), and is absent iff none is left
+HistRegionsIndexArray ==
+    InHist =>
+        LET L == lay[Len(lay)]
+            left == TagsOf(L.arr)
+        IN /\ L.sh = << Rows(L.arr), Cols(L.arr) >>
+           /\ \A k \in 1 .. 3 :
+                 LET t0 == IF inp.r[k] = Absent THEN {}
+                           ELSE { p[1] * inp.sh[2] + p[2] : p \in CellsOf(inp.r[k]) } \cap left
+                 IN IF t0 = {} THEN L.regs[k] = Absent
+                    ELSE /\ L.regs[k] # Absent
+                         /\ Inside(L.regs[k], L.sh[1], L.sh[2])
+                         /\ TagsOf(Slice(L.arr, L.regs[k])) = t0
+\* the same rotation twice in a row restores the regions and the array -- through either entry point
+HistInvolution ==
+    InHist =>
+        \A k \in 2 .. Len(hist) :
+            IsRotStep(hist[k]) /\ IsRotStep(hist[k-1]) /\ hist[k].c = hist[k-1].c =>
+                IF k = 2 THEN /\ \A j \in 1 .. 3 : lay[2].regs[j] = inp.r[j]
+                              /\ lay[2].arr = Ident(inp.sh[1], inp.sh[2])
+                ELSE lay[k].regs = lay[k-2].regs /\ lay[k].arr = lay[k-2].arr
+\* two rotations in a row are the rotation for the composed corner (histories mixing corners)
+HistCompose ==
+    InHist =>
+        \A k \in 3 .. Len(hist) :
+            hist[k].op = "rot" /\ hist[k-1].op = "rot" =>
+                LET one == StepLayout(lay[k-2], [op |-> "rot", c |-> ComposeCorners(hist[k-1].c, hist[k].c), e |-> << >>], FALSE)
+                IN lay[k].regs = one.regs /\ lay[k].arr = one.arr
 =============================================================================
